@@ -1060,7 +1060,9 @@ func (e *MetaCDC) newReplicateEntity(info *meta.TaskInfo) (*ReplicateEntity, err
 			Retry:             e.config.Retry,
 			SourceChannelNum:  e.config.SourceConfig.ChannelNum,
 			TargetChannelNum:  info.MilvusConnectParam.ChannelNum,
-			ReplicateID:       uKey,
+			// the id is the key of the channel states in the ts manager, every entity should have its own states,
+			// otherwise the closed entity of the same target takes the channel notification of the new entity or clears its states
+			ReplicateID: uKey + "-" + util.GetUUID(),
 		},
 		metaOp,
 		replicateMeta,
